@@ -1326,6 +1326,19 @@ class Executor(object):
                     def go(s, cont):
                         return self.assign(s, tgt.value, V.empty_list())
                     return self.from_expr(self.eval(st, tgt.value), go)
+                if sl.step is None and (sl.lower is None) != (sl.upper is None):
+                    # del x[:k] / del x[k:] on a list: x becomes x[k:] / x[:k] (same clamping as the slice expression)
+                    bound_e = sl.upper if sl.lower is None else sl.lower
+
+                    def go2(s, vals):
+                        cont, b = self.lift(vals[0]), vals[1]
+                        if self.feasible(s, z3.Not(V.is_list(cont))):
+                            raise Unsupported("del of a slice of a value that may not be a list")
+                        if self.feasible(s, z3.Not(V.is_int(self.lift(b)))):
+                            raise Unsupported("del of a slice whose bound may not be an int")
+                        kept = self.slice_value(s, cont, b, None) if sl.lower is None else self.slice_value(s, cont, None, b)
+                        return self.from_expr(kept, lambda s2, v2: self.assign(s2, tgt.value, v2))
+                    return self.from_expr(self.eval_seq(st, [tgt.value, bound_e]), go2)
                 raise Unsupported("del of a slice")
 
             def go(s, vals):
